@@ -55,6 +55,7 @@ type Contract struct {
 	Loops    []*Clause
 	Asserts  []*Clause
 	Wrap64   bool
+	Atomic   bool // `atomic`: the operation takes each lock for at most one critical section per call
 	Trusted  bool // body not verified (assumed contract on a /repo function) -- must be listed
 	File     string
 }
@@ -473,6 +474,8 @@ func (cs *ContractSet) parseFile(path, pkgDir string, extern bool) {
 			cur.Wrap64 = rest == "wrap64"
 		case word == "trusted" && cur != nil:
 			cur.Trusted = true
+		case word == "atomic" && cur != nil:
+			cur.Atomic = true
 		case word == "loop" && cur != nil:
 			// loop N [vars name type, name type]
 			f := strings.SplitN(rest, "vars", 2)
@@ -1466,6 +1469,12 @@ func (cs *ContractSet) resolve(e *Engine) {
 		e.contracts[ct.Key] = ct
 		if ct.Wrap64 {
 			e.wrap64[fn] = true
+		}
+		if ct.Atomic {
+			if e.atomic == nil {
+				e.atomic = map[*ssa.Function]bool{}
+			}
+			e.atomic[fn] = true
 		}
 	}
 	for _, ec := range cs.externs {
